@@ -366,8 +366,14 @@ pub fn gen_value(r: &mut Rng, t: &Type, out: &mut Vec<u8>, budget: &mut i64) -> 
             };
             out.extend_from_slice(&ms.to_le_bytes());
             let text = chrono::DateTime::from_timestamp_millis(ms as i64).expect("below year 10000").to_rfc3339();
-            // input: the RFC 3339 text or the plain number of milliseconds
-            Gen { json_in: if r.chance(1, 3) { json!(ms.to_string()) } else { json!(text.clone()) }, json_out: json!(text) }
+            // input: the RFC 3339 text (also at another UTC offset, rendered by the harness) or the
+            // plain number of milliseconds
+            let json_in = match r.below(4) {
+                0 => json!(ms.to_string()),
+                1 if ms >= 100_000_000_000 && ms < 253_300_000_000_000 => json!(util::rfc3339_with_offset(ms, r.range(0, 28 * 60) as i32 - 14 * 60, 3, false)),
+                _ => json!(text.clone()),
+            };
+            Gen { json_in, json_out: json!(text) }
         }
         Type::Duration => {
             let ms = r.u64v();
@@ -687,6 +693,124 @@ fn case_enum_boundary(sh: &mut Shard, idx: u64, r: &mut Rng) {
     if !matches!(from_bytes::<Type>(&tbytes), Ok(t2) if t2 == ty) {
         sh.violate(idx, "schema-roundtrip", format!("schema:enum{}", n), format!("an enum type with {} variants does not round-trip through its binary form", n), json!({"variants": n}));
     }
+}
+
+// ------------------------------------------------------------------ long collections, text values
+/// generic three-way judgement of one (type, json_in, json_out, bytes)
+fn judge_value(sh: &mut Shard, idx: u64, what: &str, ty: &Type, json_in: &Value, json_out: &Value, bytes: &[u8]) {
+    let short = |v: &Value| v.to_string().chars().take(400).collect::<String>();
+    let case = || json!({"type_bytes_hex": vmon_core::hex(&to_bytes(ty)), "type": format!("{:?}", ty).chars().take(600).collect::<String>(), "json_in": json_in, "json_out": json_out, "expected_bytes_hex": vmon_core::hex(bytes)});
+    let sig = |k: &str| format!("{}:{}:{}:{}", k, what, util::hex_sig(&to_bytes(ty)), util::hex_sig(bytes));
+    sh.evaluations += 1;
+    sh.hit(&format!("{}.serial_value", what));
+    match vmon_core::catch(|| ty.serial_value(json_in)) {
+        Err(p) => sh.violate(idx, "convert-panic", sig("serial-panic"), format!("serial_value panicked: {}", p), case()),
+        Ok(Err(e)) => sh.violate(idx, "json-to-bytes", sig("serial-reject"), format!("serial_value rejects a conforming JSON value ({}): {}", short(json_in), e.display(false)), case()),
+        Ok(Ok(b)) if b != bytes => sh.violate(idx, "json-to-bytes", sig("serial-bytes"), format!("serial_value({}) gives {} but the contract-side encoding is {}", short(json_in), vmon_core::hex_short(&b, 80), vmon_core::hex_short(bytes, 80)), case()),
+        Ok(Ok(_)) => {}
+    }
+    sh.evaluations += 1;
+    sh.hit(&format!("{}.to_json", what));
+    match vmon_core::catch(|| {
+        let mut c = Cursor::new(bytes);
+        (ty.to_json(&mut c), c.offset)
+    }) {
+        Err(p) => sh.violate(idx, "convert-panic", sig("to_json-panic"), format!("to_json panicked: {}", p), case()),
+        Ok((Ok(j), off)) if &j == json_out && off == bytes.len() => {}
+        Ok((Ok(j), off)) => sh.violate(idx, "bytes-to-json", sig("to_json-value"), format!("to_json gives {} (consumed {} of {} bytes), expected {}", short(&j), off, bytes.len(), short(json_out)), case()),
+        Ok((Err(e), _)) => sh.violate(idx, "bytes-to-json", sig("to_json-reject"), format!("to_json rejects the encoding of a conforming value: {}", e.display(false)), case()),
+    }
+}
+
+/// List / Set / Map with 4095, 4096, 4097 and about 5000 one-byte elements, followed by another
+/// field (a truncated collection would shift it)
+fn case_long_collection(sh: &mut Shard, idx: u64, r: &mut Rng) {
+    let n = match r.below(5) {
+        0 => 4095usize,
+        1 => 4096,
+        2 => 4097,
+        3 => r.range(4098, 6000) as usize,
+        _ => r.range(4000, 4200) as usize,
+    };
+    let sl = *r.pick(&[SizeLength::U16, SizeLength::U32, SizeLength::U64]);
+    let kind = r.below(3);
+    let mut bytes = vec![];
+    put_len(&mut bytes, n, sl);
+    let mut items = vec![];
+    let coll = match kind {
+        0 => {
+            for _ in 0..n {
+                let x = r.next() as u8;
+                bytes.push(x);
+                items.push(json!(x));
+            }
+            Type::List(sl, Box::new(Type::U8))
+        }
+        1 => {
+            for _ in 0..n {
+                let x = r.chance(1, 2);
+                bytes.push(x as u8);
+                items.push(json!(x));
+            }
+            Type::Set(sl, Box::new(Type::Bool))
+        }
+        _ => {
+            for _ in 0..n {
+                let (k, x) = (r.next() as u8, r.chance(1, 2));
+                bytes.push(k);
+                bytes.push(x as u8);
+                items.push(json!([k, x]));
+            }
+            Type::Map(sl, Box::new(Type::U8), Box::new(Type::Bool))
+        }
+    };
+    let tail = r.next() as u32;
+    bytes.extend_from_slice(&tail.to_le_bytes());
+    let (ty, j) = if r.chance(1, 2) {
+        (Type::Pair(Box::new(coll), Box::new(Type::U32)), json!([items, tail]))
+    } else {
+        (Type::Struct(Fields::Named(vec![("items".into(), coll), ("after".into(), Type::U32)])), json!({"items": items, "after": tail}))
+    };
+    sh.hit(&format!("long_collection.{}", if n <= 4095 { "le4095" } else if n == 4096 { "4096" } else if n == 4097 { "4097" } else { "gt4097" }));
+    sh.hit(&format!("long_collection.kind.{}", ["List", "Set", "Map"][kind as usize]));
+    judge_value(sh, idx, "long_collection", &ty, &j, &j, &bytes);
+    util::nt(sh, vmon_core::mix(&[11, vmon_core::fast_hash(&bytes)]));
+}
+
+/// Strings with 2-, 3-, 4-byte characters and combining marks (length prefix = UTF-8 bytes) and
+/// timestamps written at a non-zero UTC offset, each followed by another field
+fn case_text_values(sh: &mut Shard, idx: u64, r: &mut Rng) {
+    const PIECES: &[&str] = &["a", "Z", "é", "ß", "я", "€", "漢", "字", "𝄞", "😀", "e\u{301}", "a\u{308}\u{323}", " ", "0", "\u{7f}", "\u{80}", "\u{7ff}", "\u{800}", "\u{ffff}", "\u{10000}", "\u{10ffff}"];
+    for _ in 0..4 {
+        let sl = *r.pick(&SIZE_LENS);
+        let mut s = String::new();
+        for _ in 0..r.range(1, 12) {
+            s.push_str(*r.pick(PIECES));
+        }
+        let tail = r.next() as u16;
+        let mut bytes = vec![];
+        put_len(&mut bytes, s.len(), sl);
+        bytes.extend_from_slice(s.as_bytes());
+        bytes.extend_from_slice(&tail.to_le_bytes());
+        let ty = Type::Pair(Box::new(Type::String(sl)), Box::new(Type::U16));
+        let j = json!([s, tail]);
+        if s.chars().count() != s.len() {
+            sh.hit("text_values.string.non_ascii");
+        }
+        judge_value(sh, idx, "text_values.string", &ty, &j, &j, &bytes);
+    }
+    for _ in 0..4 {
+        let (ms, off_min, text) = util::gen_offset_timestamp(r);
+        let tail = r.next() as u16;
+        let mut bytes = ms.to_le_bytes().to_vec();
+        bytes.extend_from_slice(&tail.to_le_bytes());
+        let ty = Type::Struct(Fields::Named(vec![("at".into(), Type::Timestamp), ("n".into(), Type::U16)]));
+        // normal form: UTC with offset +00:00, fractional digits only if the milliseconds are not zero
+        let out_text = util::rfc3339_with_offset(ms, 0, if ms % 1000 == 0 { 0 } else { 3 }, false);
+        sh.hit(if off_min == 0 { "text_values.timestamp.zero_offset" } else { "text_values.timestamp.nonzero_offset" });
+        judge_value(sh, idx, "text_values.timestamp", &ty, &json!({"at": text, "n": tail}), &json!({"at": out_text, "n": tail}), &bytes);
+    }
+    util::nt(sh, vmon_core::mix(&[12, r.next()]));
 }
 
 // ------------------------------------------------------------------ conversions
@@ -1120,6 +1244,10 @@ pub fn run(ctx: &ChildCtx, sh: &mut Shard) {
             case_schema(sh, idx, &mut r);
         } else if idx % 25 == 3 {
             case_enum_boundary(sh, idx, &mut r);
+        } else if idx % 25 == 8 {
+            case_long_collection(sh, idx, &mut r);
+        } else if idx % 25 == 13 {
+            case_text_values(sh, idx, &mut r);
         } else {
             case_convert(sh, idx, &mut r);
         }
